@@ -41,20 +41,64 @@ NF_NAMES = {"NaN": "NFNan", "Infinity": "NFPosInf", "-Infinity": "NFNegInf"}
 # ------------------------------------------------------------------------------------------------
 # generators (every choice from the Random handed in)
 
+# field names that are Python keywords: legal, but the record class then gets the generic *args/**kwargs constructor
+KEYWORD_NAMES = ["from", "class", "or", "is", "in", "if", "import", "and", "not", "pass", "global", "lambda", "with", "as", "for"]
+
+# set-but-falsy values per type (what `x or default` style code loses)
+FALSY = {"string": [""], "wstring": [""], "uri": [""], "varint": [0], "filesize": [0], "unix_file_mode": [0], "uint16": [0],
+         "uint32": [0], "boolean": [False, 0], "float": [0.0, -0.0], "bytes": [b""], "path": [""]}
+
+
+def build_record(desc, kw):
+    """construct POSITIONALLY (every slot in slot order): the values asked for are the values the record holds, also
+    for the generic constructor of descriptors with keyword-named fields; the JSON reader itself builds its records
+    through keyword arguments"""
+    return desc.recordType(*[kw.get(n) for n in desc.recordType.__slots__])
+
+
 class Gen14(recgen.Gen):
     """descriptors / records over the JSON-supported types only: no command, record, stringlist, dictlist, dynamic;
-    POSIX paths only (the property does not claim Windows paths)."""
+    POSIX paths only (the property does not claim Windows paths).  About a quarter of the descriptors have
+    keyword-named fields; falsy-but-set values (0, 0.0, False, "", b"", []) are drawn often."""
 
     def __init__(self, rnd, finite_only=False):
         super().__init__(rnd, types=SCALARS, legacy=False, nested=False, max_fields=6)
         self.finite_only = finite_only
 
+    def descriptor(self, name=None, depth=0):
+        from flow.record import RecordDescriptor
+        d = super().descriptor(name, depth)
+        rnd = self.rnd
+        if rnd.random() < 0.25:
+            fields = [list(f) for f in d.get_field_tuples()]
+            names = rnd.sample(KEYWORD_NAMES, min(len(fields), rnd.choice([1, 1, 2, 3])))
+            for pos, kwn in zip(rnd.sample(range(len(fields)), len(names)), names):
+                fields[pos][1] = kwn
+            if len({n for _, n in fields}) == len(fields):
+                d = RecordDescriptor(d.name, [tuple(f) for f in fields])
+        return d
+
+    def record(self, desc, depth=0):
+        rnd = self.rnd
+        kw = {}
+        for t, n in desc.get_field_tuples():
+            kw[n] = self.value(t, depth)
+        kw["_source"] = rnd.choice([None, "src", "h\u00e9", ""])
+        kw["_classification"] = rnd.choice([None, "secret", ""])
+        kw["_generated"] = rnd.choice([recgen.T0, recgen.T0.replace(microsecond=0),
+                                       pydt.datetime(1999, 12, 31, 23, 59, 59, tzinfo=pydt.timezone(pydt.timedelta(hours=2)))])
+        return build_record(desc, kw)
+
     def value(self, typename, depth):
         rnd = self.rnd
         if typename.endswith("[]"):
+            if rnd.random() < 0.2:
+                return []
             return super().value(typename, depth)
         if rnd.random() < 0.12:
             return None
+        if typename in FALSY and rnd.random() < 0.2:
+            return rnd.choice(FALSY[typename])
         if typename == "path":
             v = rnd.choice(POSIX_PATHS)
             return pathlib.PurePosixPath(v) if v and rnd.random() < 0.2 else v
@@ -672,6 +716,22 @@ def fixed_sequences():
     S1 = RecordDescriptor("probe/same", [("string", "a")])
     S2 = RecordDescriptor("probe/same", [("varint", "a"), ("bytes", "b")])
     out.append(("same-name", [S1(a="x", _generated=T0), S2(a=1, b=None, _generated=T0), S1(a=None, _generated=T0), S2(a=None, b=b"", _generated=T0)]))
+    # keyword-named fields (generic constructor) x falsy-but-set values in every type: the keyword field itself and its
+    # neighbours; also unset, and ordinary values
+    kwn = list(KEYWORD_NAMES)
+    ftypes = list(FALSY)
+    Kf = RecordDescriptor("probe/kwfalsy", [(t, kwn[i] if i % 2 == 0 else "n%d" % i) for i, t in enumerate(ftypes)]
+                          + [("string[]", "global"), ("bytes[]", "nl"), ("digest", "lambda"), ("varint[]", "with")])
+    names = [n for _, n in Kf.get_field_tuples()]
+    for variant in range(2):
+        kwv = {n: FALSY[t][variant % len(FALSY[t])] for (t, n) in Kf.get_field_tuples() if t in FALSY}
+        kwv.update({"global": [], "nl": [], "with": [0]})
+        out.append(("keyword-falsy-%d" % variant, [build_record(Kf, dict(kwv, _generated=T0, _source="", _classification="")),
+                                                    build_record(Kf, dict(_generated=T0)),
+                                                    build_record(Kf, dict({n: v for n, v in kwv.items() if names.index(n) % 3 == 0}, _generated=T0))]))
+    Kt = RecordDescriptor("probe/kwall", [(t, kwn[i % len(kwn)] + ("" if i < len(kwn) else "_")) for i, t in enumerate(SCALARS)])
+    out.append(("keyword-all-types", [build_record(Kt, dict({n: vals[t] for t, n in Kt.get_field_tuples()}, _generated=T0, _source="s")),
+                                      build_record(Kt, dict(_generated=T0))]))
     Bt = RecordDescriptor("probe/bytes", [("bytes", "b"), ("bytes[]", "bl")])
     out.append(("bytes-none", [Bt(b=None, bl=None, _generated=T0), Bt(b=b"", bl=[b"", b"\xff"], _generated=T0)]))
     return out
